@@ -317,7 +317,7 @@ func (m *vsModel) expectList(terms []vsTerm, limit int) []vsListEntry {
 // ---- workload generation ----
 
 var vsKeys = []string{"goos", "goarch", "pkg", "commit", "note", "k-1", "é", "a.b", "cpu"}
-var vsVals = []string{"linux", "darwin", "amd64", "1", "2", "10", "9", "x y", `q"uote`, `back\slash`, "a<b", "c>d", "k:v", "é世", "Intel(R) Core(TM)", "tab\there", "-", "zz", `"`, `\`, `a\"b c`}
+var vsVals = []string{"linux", "darwin", "amd64", "1", "2", "10", "9", "x y", `q"uote`, `back\slash`, "a<b", "c>d", "k:v", "é世", "Intel(R) Core(TM)", "tab\there", "-", "zz", `"`, `\`, `a\"b c`, "fast\u00a0path", "a\vb", "x\u2003y", "f\ff"}
 var vsNameBases = []string{"Encode", "Decode", "Sort", "Fib", "X"}
 var vsSubs = []string{"size=1", "size=10", "align=0", "poly=IEEE", "plain", "8", "fmt=json"}
 var vsServerKeys = []string{"upload", "upload-part", "upload-time", "upload-file", "by"}
@@ -345,6 +345,7 @@ func vsGenName(T *sim.Tape) string {
 }
 
 type vsGenOpts struct {
+	wide       bool // one record with more than 250 labels, followed by an equal-label result
 	maxLines   int
 	manyLabels bool // crosses the insert batch
 	collide    bool // allow file labels that collide with name labels (upload must fail)
@@ -362,6 +363,14 @@ func vsGenFile(T *sim.Tape, o vsGenOpts) string {
 	name := vsGenName(T)
 	nbench := 0
 	extra := 0
+	if o.wide {
+		nk := 245 + T.Intn(30, "wide-n")
+		for i := 0; i < nk; i++ {
+			fmt.Fprintf(&b, "w%d: %d\n", i, i%7)
+		}
+		fmt.Fprintf(&b, "Benchmark%s 1 1 ns/op\nBenchmark%s 2 2 ns/op\n", name, name)
+		nbench += 2
+	}
 	for i := 0; i < n; i++ {
 		k := T.Intn(12, "linekind")
 		switch {
